@@ -248,13 +248,73 @@ pub fn run(ctx: &Ctx) -> Result<(), String> {
         });
     }
 
+    // one verifier object asked several questions: every sequence (length <= depth) over
+    // {update(chunk), verify(signature of the message fed so far), verify(that signature with a bit
+    // flipped), verify(signature of the message before the last update)} — each answer must equal
+    // direct verification of the message fed so far, whatever was asked before
+    let vdepth = ctx.tier.pick(4u32, 5);
+    {
+        let lseeds = seeds_subset(ctx.seed, ctx.tier.pick(2, 6));
+        let nseq: usize = (1..=vdepth).map(|l| 4usize.pow(l)).sum();
+        par_for(lseeds.len() * nseq, 64, |k, _| {
+            let (seed, _) = lseeds[k / nseq];
+            let mut idx = k % nseq;
+            let mut l = 1u32;
+            while idx >= 4usize.pow(l) {
+                idx -= 4usize.pow(l);
+                l += 1;
+            }
+            let ops: Vec<usize> = (0..l).map(|i| idx / 4usize.pow(i) % 4).collect();
+            evals.fetch_add(1, Relaxed);
+            nontrivial.fetch_add(1, Relaxed);
+            let pk = crypto::public_key(&seed);
+            let r = catch(|| {
+                let mut v = MsgVerifier::new(&pk);
+                let mut msg: Vec<u8> = vec![];
+                let mut prev: Vec<u8> = vec![];
+                let mut out = vec![];
+                for (step, &op) in ops.iter().enumerate() {
+                    match op {
+                        0 => {
+                            prev = msg.clone();
+                            let chunk = canonical_message(5 + step * 3);
+                            v.update(&chunk);
+                            msg.extend_from_slice(&chunk);
+                        }
+                        _ => {
+                            let mut sig = if op == 3 { crypto::sign(&seed, &prev) } else { crypto::sign(&seed, &msg) };
+                            if op == 2 {
+                                sig[7] ^= 0x20;
+                            }
+                            out.push((step, v.verify(&sig), crypto::verify(&pk, &msg, &sig)));
+                        }
+                    }
+                }
+                out
+            });
+            match r {
+                Err(p) => ctx.violation("verifier-panic", "verifier", "object-reuse", json!({"kind":"verify-sequence","seed":hex(&seed),"ops":ops,"panic":p})),
+                Ok(out) => {
+                    for (step, got, want) in out {
+                        if got != want {
+                            ctx.violation(if got { "accepts-invalid" } else { "rejects-valid" }, "verifier", "object-reuse", json!({"kind":"verify-sequence","seed":hex(&seed),"ops":ops,"step":step,"direct":want,"subject":got,
+                                "legend":"0 update(chunk), 1 verify(sig of message so far), 2 verify(that sig with a bit flipped), 3 verify(sig of the message before the last update)"}));
+                            break;
+                        }
+                    }
+                }
+            }
+        });
+    }
+
     ctx.cov("evaluations", json!(evals.load(Relaxed)));
     ctx.cov("distinct_nontrivial", json!(nontrivial.load(Relaxed)));
+    ctx.cov("verifier_object_sequences_depth", json!(vdepth));
     ctx.cov("seeds", json!(seeds.len()));
     ctx.cov("sampled_seeds", json!(seeds.iter().filter(|s| s.1).count()));
     ctx.cov("exhaustive", json!(true));
     ctx.cov("bound", json!({"message_length_max":4096,"chunkings_n_max":maxn,"sequence_len_max":4,"sequence_alphabet":5,"long_sequence":32}));
-    ctx.cov("rule", json!(format!("per seed of a structured alphabet ({} seeds: zero, ff, RFC 8032 vectors, single-bit, single-byte-value, seeded random): every message length 0..=4096 signed back-to-back on one signer; two-chunk splits at 1/1023/1024/1025/len-1; all 2^(n-1) chunkings for n<={}; all sequences of length<=4 over 5 messages {{0,1,64,1024,4096 bytes}} on fresh signers; one 32-message sequence. Oracle: signature bytes == ed25519-dalek one-shot signature of that message alone. Verifier: valid triples and every single-bit corruption of message/signature/key vs direct verification (panic == reject); and for every message length 0..=4096 in 5-7 chunkings: the valid triple, a flipped bit in the first/middle/last byte, the signature of every 256-aligned proper prefix and of len-1, the message extended by one byte. Non-trivial = a case with >=2 chunks or >=2 messages on one signer, or a corrupted triple.", seeds.len(), maxn)));
+    ctx.cov("rule", json!(format!("per seed of a structured alphabet ({} seeds: zero, ff, RFC 8032 vectors, single-bit, single-byte-value, seeded random): every message length 0..=4096 signed back-to-back on one signer; two-chunk splits at 1/1023/1024/1025/len-1; all 2^(n-1) chunkings for n<={}; all sequences of length<=4 over 5 messages {{0,1,64,1024,4096 bytes}} on fresh signers; one 32-message sequence. Oracle: signature bytes == ed25519-dalek one-shot signature of that message alone. Verifier: valid triples and every single-bit corruption of message/signature/key vs direct verification (panic == reject); and for every message length 0..=4096 in 5-7 chunkings: the valid triple, a flipped bit in the first/middle/last byte, the signature of every 256-aligned proper prefix and of len-1, the message extended by one byte; and every sequence (length <= 4, thorough 5) of update/verify(valid)/verify(corrupted)/verify(signature of the earlier message) on ONE verifier object, every answer compared with direct verification of the message fed so far. Non-trivial = a case with >=2 chunks or >=2 messages on one signer, or a corrupted triple.", seeds.len(), maxn)));
     ctx.sample(json!({"kind":"chunking","n":5,"mask":"0b1010","chunks":[2,2,1]}));
     ctx.sample(json!({"kind":"sequence","seq":[4,0,2,1],"lengths":[4096,0,64,1]}));
     ctx.sample(json!({"kind":"verify","corruption":"signature-bit","bit":255}));
@@ -275,6 +335,38 @@ pub fn replay_case(c: &Value) -> Result<Option<String>, String> {
         let want = crypto::verify(&pk, &m, &sig);
         let got = subject_verify(&pk, &m, &sig);
         return Ok(if want != got { Some(format!("direct={} subject={}", want, got)) } else { None });
+    }
+    if c["kind"] == "verify-sequence" {
+        let seed: [u8; 32] = crypto::unhex(c["seed"].as_str().ok_or("seed")?).try_into().map_err(|_| "seed")?;
+        let ops: Vec<usize> = c["ops"].as_array().ok_or("ops")?.iter().map(|x| x.as_u64().unwrap_or(0) as usize).collect();
+        let pk = crypto::public_key(&seed);
+        let r = catch(|| {
+            let mut v = MsgVerifier::new(&pk);
+            let mut msg: Vec<u8> = vec![];
+            let mut prev: Vec<u8> = vec![];
+            for (step, &op) in ops.iter().enumerate() {
+                if op == 0 {
+                    prev = msg.clone();
+                    let chunk = canonical_message(5 + step * 3);
+                    v.update(&chunk);
+                    msg.extend_from_slice(&chunk);
+                } else {
+                    let mut sig = if op == 3 { crypto::sign(&seed, &prev) } else { crypto::sign(&seed, &msg) };
+                    if op == 2 {
+                        sig[7] ^= 0x20;
+                    }
+                    let (got, want) = (v.verify(&sig), crypto::verify(&pk, &msg, &sig));
+                    if got != want {
+                        return Some(format!("step {}: direct={} subject={}", step, want, got));
+                    }
+                }
+            }
+            None
+        });
+        return Ok(match r {
+            Ok(x) => x,
+            Err(p) => Some(format!("panic {}", p)),
+        });
     }
     if c["kind"] == "verify-length" {
         let seed: [u8; 32] = crypto::unhex(c["seed"].as_str().ok_or("seed")?).try_into().map_err(|_| "seed")?;
